@@ -62,7 +62,7 @@ class CallMixin:
                      "sorted", "next", "iter", "print", "type", "abs", "super", "callable", "object", "setattr", "float",
                      # spec-only
                      "old", "forall", "exists", "implies", "fresh", "allocated", "at_loop", "iff", "typeis", "seq_eq",
-                     "count", "distinct_seq", "ite", "subseteq", "same_elems", "box", "nonnull", "unchanged", "Seq", "some", "IntSeq", "countp", "prefixof", "suffixof", "strlen", "charat", "ir_clean"}
+                     "count", "distinct_seq", "ite", "subseteq", "same_elems", "box", "nonnull", "unchanged", "Seq", "some", "IntSeq", "countp", "prefixof", "suffixof", "strlen", "charat", "ir_clean", "box_get", "box_has"}
 
     def _mod_consts(self, mod):
         c = self._consts_cache.get(mod)
@@ -409,7 +409,7 @@ class CallMixin:
             fr_done = q.frames.pop()
             gh = {k: v for k, v in fr_done.locals.items() if k.startswith("g_")}
             if gh:
-                q.ghost["$exit_ghost"] = gh
+                q.ghost["$exit_ghost"] = gh       # ghost locals are visible to post-conditions of every exit
             if oc is NEXT:
                 out.append((q, VNone()))
             elif oc[0] == "return":
